@@ -291,9 +291,65 @@ pub(crate) mod verif_heap {
         bits
     }
 
+    /// Partition "wide" (a history from the empty heap): insert a minimal root, then m <= 6 nodes with larger symbolic keys
+    /// (they become its children), remove the root (merge_children over up to 6 siblings) or one child, then pop
+    /// everything through peek_min/remove: every remaining member comes out exactly once, in key order.
+    pub fn wide<S: Src>(s: &mut S) -> u32 {
+        const W: usize = 7;
+        // (one local per node + a pointer table: no symbolic offsets into an array of structs)
+        let (mut a0, mut a1, mut a2, mut a3, mut a4, mut a5, mut a6) = (
+            HeapNode::new(0u8), HeapNode::new(0u8), HeapNode::new(0u8), HeapNode::new(0u8),
+            HeapNode::new(0u8), HeapNode::new(0u8), HeapNode::new(0u8),
+        );
+        let wt: [*mut N; W] = [&mut a0, &mut a1, &mut a2, &mut a3, &mut a4, &mut a5, &mut a6];
+        let m = s.below(7) as usize;
+        let mut heap = PairingHeap::<u8>::new();
+        unsafe {
+            heap.insert(&mut *wt[0]);
+            let mut i = 1;
+            while i <= m {
+                (*wt[i]).data = 1 + s.below(3);
+                heap.insert(&mut *wt[i]);
+                i += 1;
+            }
+            assert!(heap.peek_min() == NonNull::new(wt[0]), "C20 heap: the minimum key is not at the root after inserts");
+            let victim = s.below(7) as usize;
+            s.assume(victim <= m);
+            heap.remove(&mut *wt[victim]);
+            assert!((*wt[victim]).verif_unlinked(), "C20 heap: removed node still carries links");
+            let mut out = [false; W];
+            let mut last = 0u8;
+            let mut cnt = 0usize;
+            let mut r = 0;
+            while r < W {
+                match heap.peek_min() {
+                    None => break,
+                    Some(p) => {
+                        let mut idx = W;
+                        let mut k = 0;
+                        while k < W { if wt[k] == p.as_ptr() { idx = k; } k += 1; }
+                        assert!(idx < W && idx != victim && idx <= m && !out[idx], "C20 heap: peek_min returned a removed node or a node twice");
+                        assert!((*p.as_ptr()).data >= last, "C20 heap: elements do not come out in key order");
+                        last = (*p.as_ptr()).data;
+                        out[idx] = true;
+                        cnt += 1;
+                        heap.remove(&mut *p.as_ptr());
+                        assert!((*p.as_ptr()).verif_unlinked(), "C20 heap: removed node still carries links");
+                    }
+                }
+                r += 1;
+            }
+            assert!(cnt == m, "C20 heap: members were lost (or gained) after removing a node with many children");
+            let bits = if victim == 0 { m as u32 } else { 0 };
+            s.reached(bits);
+            bits
+        }
+    }
+
     #[no_mangle]
     pub fn fi_verif_replay_heap(name: &str, cfg: u32, _p: u32, s: &mut ScriptSrc<'_>) -> bool {
         match name {
+            "heap_wide" => { wide(s); }
             "heap_hist" => { hist(s, 64, if cfg & 15 == 0 { K } else { (cfg & 15) as usize }, (cfg >> 4) as usize, true); }
             _ => return false,
         }
@@ -377,6 +433,13 @@ pub(crate) mod verif_heap {
                 }
             }
         }
+        #[kani::proof]
+        #[kani::unwind(9)]
+        fn heap_wide_k7() { let b = wide(&mut KaniSrc); kani::cover!(b == 6, "W heap wide: a root with 6 children was removed"); }
+        #[kani::proof]
+        #[kani::unwind(9)]
+        fn heap_witness_wide() { let b = wide(&mut KaniSrc); assert!(b != 5, "WITNESS reached"); }
+
         #[kani::proof]
         #[kani::unwind(7)]
         fn heap_step_k4() { step(4, 2) }
